@@ -121,6 +121,7 @@ func c06Run(rc *RunCtx, params any) {
 	}
 	rc.R.Class = fmt.Sprintf("%s/W=%d", cfg.Name, p.W)
 	cfg.C.ReplayWindow, cfg.S.ReplayWindow = p.W, p.W
+	rc.Note("proto", protoTag(cfg.C, cfg.S))
 	n := NewSimNet(s, NetRules{})
 	pair, err := NewPair(s, n, cfg.C, cfg.S, nil)
 	if err != nil {
